@@ -112,6 +112,8 @@ type Params struct {
 	RT              RuntimeParams // runtime support: zero unless WithRuntime
 	WithKeyManager  bool
 	KM              KMParams // key manager support: zero unless WithKeyManager
+	WithVRF         bool
+	VRF             VRFParams // VRF beacon support: zero unless WithVRF
 }
 
 // Scenario is a genesis document plus all keys.
@@ -209,6 +211,11 @@ func NewScenario(seed uint64, profile string) *Scenario {
 		p.NumValidators = 3 + rng.IntN(3)
 		p.MaxValidators = 2 + rng.IntN(p.NumValidators)
 		p.EpochInterval = 5 + rng.Int64N(4)
+	case "vrf": // VRF beacon support: epochs long enough for the proof submission window and for runtime rounds
+		p.NumValidators = 4 + rng.IntN(4)
+		p.MaxValidators = 2 + rng.IntN(p.NumValidators)
+		p.MinValidators = 1 + rng.IntN(2)
+		p.EpochInterval = 4 + rng.Int64N(7)
 	}
 	s := &Scenario{Seed: seed, P: p, Profile: profile}
 
@@ -245,6 +252,7 @@ func NewScenario(seed uint64, profile string) *Scenario {
 	s.Doc = s.buildDoc(rng)
 	s.addRuntime(rng, profile)    // runtime support (drawn after all other scenario draws)
 	s.addKeyManager(rng, profile) // key manager support (drawn after the runtime's draws)
+	s.addVRF(rng, profile)        // VRF beacon support (drawn after everything else; draws only for profile "vrf")
 	s.addIdleOwner(profile)       // idle owner of a suspended runtime (draws nothing from rng)
 	return s
 }
